@@ -208,6 +208,9 @@ pub struct Sample {
     pub tag: &'static str,
     pub open: bool,
     pub advertised: bool,
+    /// What an mDNS back end that re-publishes only when `Transport::wait_mdns` fires
+    /// currently has on the air (commissionable service published?).
+    pub published: bool,
     pub failures: Option<u8>,
     pub marker: bool,
 }
@@ -563,6 +566,9 @@ struct RunState {
     adv: RefCell<AdvTruth>,
     hs_done: Cell<bool>,
     first_started_at: Cell<Option<u64>>,
+    /// see `Sample::published`
+    published: Cell<bool>,
+    publishes: Cell<u32>,
 }
 
 pub fn run_case(p: &Params) -> Outcome {
@@ -588,6 +594,8 @@ pub fn run_case(p: &Params) -> Outcome {
         adv: RefCell::new(AdvTruth::default()),
         hs_done: Cell::new(false),
         first_started_at: Cell::new(None),
+        published: Cell::new(false),
+        publishes: Cell::new(0),
     });
 
     // ---------------- adversary ----------------
@@ -807,6 +815,7 @@ pub fn run_case(p: &Params) -> Outcome {
                         tag,
                         open,
                         advertised,
+                        published: rs.published.get(),
                         failures,
                         marker,
                     });
@@ -1102,6 +1111,7 @@ pub fn run_case(p: &Params) -> Outcome {
             let node_r: BoxFut = {
                 let ep = hub.endpoint(1);
                 let with_im = p.with_im;
+                let rs_pub = rs.clone();
                 Box::pin(async move {
                     let sc = SecureChannel::new(crypto_r, &());
                     let responder = Responder::new("dev", sc, mr, 0);
@@ -1120,7 +1130,25 @@ pub fn run_case(p: &Params) -> Outcome {
                     let r: BoxFut = Box::pin(async {
                         let _ = responder.run::<4>().await;
                     });
-                    let mut v = vec![t, r];
+                    // A notification-driven mDNS back end (avahi / zeroconf / resolve style):
+                    // publishes the current service list once, then again whenever rs-matter
+                    // says that it changed - and only then.
+                    let rs_pub = rs_pub.clone();
+                    let publisher: BoxFut = Box::pin(async move {
+                        loop {
+                            let mut adv = false;
+                            let _ = mr.mdns_services(|s| {
+                                if matches!(s, MatterLocalService::Commissionable { .. }) {
+                                    adv = true;
+                                }
+                                Ok(())
+                            });
+                            rs_pub.published.set(adv);
+                            rs_pub.publishes.set(rs_pub.publishes.get() + 1);
+                            mr.transport().wait_mdns().await;
+                        }
+                    });
+                    let mut v = vec![t, r, publisher];
                     if with_im {
                         let j: BoxFut = Box::pin(async {
                             let _ = im.run().await;
@@ -2005,6 +2033,14 @@ pub fn judge(rep: &mut Report, p: &Params, o: &Outcome, replay: serde_json::Valu
             "expired" => {
                 if p.with_im {
                     rep.count("R3-expiry-checked");
+                    if !s.open && !s.advertised && s.published {
+                        rep.violation(
+                            "R3-advertised-iff-open",
+                            "C02/R3/still-published-after-expiry-plus-poll/notification-driven-publisher",
+                            format!("t={}: the window has expired and rs-matter's own service list no longer holds the commissionable service, but an mDNS back end that republishes when Transport::wait_mdns fires was never told: it still publishes it (actions {:?}); params {:?}", s.t, o.actions, p),
+                            replay.clone(),
+                        );
+                    }
                     if s.open || s.advertised {
                         rep.violation(
                             "R3-advertised-iff-open",
